@@ -6,7 +6,7 @@
 From Coq Require Import List NArith.
 From MOC.Base Require Import RangeSet.
 From Coq Require Import Permutation Sorted.
-From MOC.Model Require Import Qty Query Build Neigh NeighHpx NeighTF FloodFill FloodFillProofs.
+From MOC.Model Require Import Qty Query Build Neigh NeighHpx NeighTF FloodFill FloodFillProofs FloodFillSpec.
 Import ListNotations.
 Open Scope N_scope.
 
@@ -157,9 +157,10 @@ Proof. exact visit_finds_container. Qed.
     the cells reachable through R from the first cell that was still there, listed in vector order, and the
     next component is computed on the cells that are left (SplitSpec).  Hypotheses: the cells are those of a
     MOC of depth dmax - depth <= dmax, sorted by zuniq, pairwise non-overlapping.
-    What remains outside this theorem: that cdshealpix's external_edge of a cell is the set of the depth-dmax
-    neighbours of its border sub-cells (validated at run time: neighbour tables compared cell by cell, and the
-    verified checker on every output). *)
+    C17_split_floodfill_meets_definition(_shallow) below link R to the flat adjacency of the property.  What
+    remains outside the theorems: that cdshealpix's external_edge of a cell lists the depth-dmax neighbours of its
+    border sub-cells (tied at run time: the model fed with ext_of nb must produce, component by component and
+    cell by cell, what the implementation produces; neighbour tables compared cell by cell). *)
 Theorem C17_split_floodfill_components : forall maxd dmax, maxd <= 64 -> dmax <= maxd ->
   forall (ext : N -> N -> list N) cells,
   Forall (fun c => fst c <= dmax) cells ->
@@ -182,6 +183,38 @@ Theorem C17_floodfill_search_nothing : forall maxd dmax, maxd <= 64 -> dmax <= m
   forall l stack x, fcells_ok maxd dmax l -> (forall e, In e l -> ~ contains dmax (fst e) x) ->
   ff_visit maxd dmax (map (enc maxd) l, stack) x = (map (enc maxd) l, stack).
 Proof. exact visit_nothing. Qed.
+
+(** ---------- from the reachability classes to the property's definition on the flat cell set ----------
+    When the external edge of a cell is "the depth-dmax neighbours of its sub-cells that are not sub-cells"
+    (ext_of nb), nb is symmetric on the domain D and the sub-cells of every cell are connected, the parts the
+    flood fill returns for the cells of a MOC are non-empty, pairwise disjoint, cover exactly the MOC, are
+    pairwise non-adjacent and each connected: SplitOK, the definition the property states. *)
+Theorem C17_split_floodfill_meets_definition : forall (nb : N -> list N) maxd dmax, maxd <= 64 -> dmax <= maxd ->
+  forall D : N -> Prop,
+  (forall x y, D y -> In x (nb y) -> In y (nb x)) ->
+  (forall c, fst c <= dmax -> (forall x, contains dmax c x -> D x) -> Connected nb (subs dmax c)) ->
+  forall cells,
+  Forall (fun c => fst c <= dmax) cells ->
+  StronglySorted N.lt (map (zun maxd) cells) ->
+  ForallOrdPairs (disj maxd) cells ->
+  (forall c x, In c cells -> contains dmax c x -> D x) ->
+  exists comps, ff_split maxd dmax (ext_of nb dmax) cells = Some comps /\
+                SplitOK nb (flatc dmax cells) (map (flatc dmax) comps).
+Proof. exact split_meets_definition. Qed.
+
+(** ... and both hypotheses hold for the edge-only and the edge-or-vertex adjacency of the model at every depth
+    <= 3 (finite sweeps computed inside Coq): at these depths, for every index width, the modelled
+    split_into_joint_mocs meets its definition on EVERY MOC *)
+Theorem C17_split_floodfill_meets_definition_shallow : forall (d : nat) (indirect : bool) maxd cells,
+  (d <= 3)%nat -> maxd <= 64 -> N.of_nat d <= maxd ->
+  let nb := if indirect then nb8 d else nb4 d in
+  let dmax := N.of_nat d in
+  Forall (fun c => fst c <= dmax /\ snd c < 12 * 4 ^ fst c) cells ->
+  StronglySorted N.lt (map (zun maxd) cells) ->
+  ForallOrdPairs (disj maxd) cells ->
+  exists comps, ff_split maxd dmax (ext_of nb dmax) cells = Some comps /\
+                SplitOK nb (flatc dmax cells) (map (flatc dmax) comps).
+Proof. exact split_meets_definition_shallow. Qed.
 
 Example C17_nonvacuous_floodfill :
   ff_split 29 1 (ext_of (nb4 1) 1) [(0, 0); (0, 2); (1, 20)] = Some [[(0, 0)]; [(0, 2)]; [(1, 20)]] /\
@@ -211,3 +244,5 @@ Print Assumptions C17_floodfill_search_finds_container.
 Print Assumptions C17_split_floodfill_components.
 Print Assumptions C17_floodfill_search_general.
 Print Assumptions C17_floodfill_search_nothing.
+Print Assumptions C17_split_floodfill_meets_definition.
+Print Assumptions C17_split_floodfill_meets_definition_shallow.
